@@ -428,7 +428,180 @@ ASSUMPTIONS = [
 ]
 
 
+OLF = "pasfmt_core::rules::optimising_line_formatter::"
+OLF_SETTINGS = OLF + "OptimisingLineFormatterSettings"
+FOS = OLF + "InternalOptimisingLineFormatter::find_optimal_solution"
+
+
+def check_c(prog, rep):
+    """C04.c — the wrapping search is cut off by iteration_max and the caller falls back."""
+    R = "C04.c"
+    from progress import bfs_cycle
+    reads = [a for a in prog.field_accesses(OLF_SETTINGS, "iteration_max")
+             if a[3] in ("read", "ref", "refmut") and "core::fmt::Debug" not in a[0].npath and "core::clone::Clone" not in a[0].npath]
+    bodies = sorted({a[0].npath for a in reads})
+    rep.check(bodies == [FOS], R, "who-reads:iteration_max", "iteration_max must be read exactly in find_optimal_solution, found readers: %s"
+              % [short(b) for b in bodies], instance={"readers": [short(b) for b in bodies]})
+    b = prog.body(FOS)
+    if not rep.check(b is not None and len(reads) >= 1, R, "anchor:find_optimal_solution", "find_optimal_solution / iteration_max read not found"):
+        return
+    ok_any = False
+    for (_, bb, i, kind, s) in reads:
+        if kind != "read" or i == "term":
+            continue
+        lim = s["dst"]["l"]
+        # the compare using the limit as right operand
+        for bb2, i2, s2 in b.stmts():
+            if s2["k"] == "assign" and s2["rv"]["k"] == "binop" and s2["rv"]["op"] == "Gt" \
+                    and s2["rv"]["b"]["k"] in ("copy", "move") and s2["rv"]["b"]["place"]["l"] == lim:
+                cnt_op = s2["rv"]["a"]
+                from panic import source_place
+                cnt_pl = source_place(b, cnt_op)
+                cnt = cnt_pl["l"] if cnt_pl and not cnt_pl["p"] else None
+                flag = s2["dst"]["l"]
+                # switch on the flag in this block
+                t = b.blocks[bb2]["term"]
+                if t["k"] != "switch" or t["discr"]["place"]["l"] != flag:
+                    continue
+                true_tgt = t["otherwise"] if [v for v, _ in t["targets"]] == [0] else None
+                if cnt is None or true_tgt is None:
+                    continue
+                # the loop containing the compare; counter incremented by const 1 on every cycle
+                loops = [(h, L) for h, L in b.loops().items() if bb2 in L]
+                if not loops:
+                    continue
+                h, L = min(loops, key=lambda x: len(x[1]))
+                inc_blocks = set()
+                for bb3, i3, s3 in b.stmts():
+                    if s3["k"] == "assign" and s3["dst"]["l"] == cnt and not s3["dst"]["p"] and bb3 in L:
+                        rv = s3["rv"]
+                        if rv["k"] == "use" and rv["op"]["k"] in ("copy", "move"):
+                            src = rv["op"]["place"]["l"]
+                            for d in b.defs.get(src, []):
+                                if d[0] == "assign" and d[3]["rv"]["k"] == "binop" and d[3]["rv"]["op"] in ("AddWithOverflow", "Add") \
+                                        and d[3]["rv"]["b"]["k"] == "const" and d[3]["rv"]["b"].get("int") == 1 \
+                                        and d[3]["rv"]["a"]["k"] in ("copy", "move") and d[3]["rv"]["a"]["place"]["l"] == cnt:
+                                    inc_blocks.add(bb3)
+                        elif rv["k"] == "binop" and rv["op"] == "Add" and rv["b"]["k"] == "const" and rv["b"].get("int") == 1:
+                            inc_blocks.add(bb3)
+                cyc = bfs_cycle(b, h, L, inc_blocks | {true_tgt})
+                c1 = rep.check(bool(inc_blocks) and cyc is None, R, "counter-on-every-cycle",
+                               "the heap loop of find_optimal_solution has a cycle that neither increments the iteration counter nor takes the cut-off exit",
+                               where="%s:%d" % (b.file, abs(s2.get("line", 0))), instance={"loop_header": "bb%d" % h, "increment_blocks": len(inc_blocks)})
+                # true edge leaves the loop and returns Err(IterationLimitReached)
+                leaves = true_tgt not in L or not b.can_reach_avoiding(true_tgt, {h}, set())
+                err = False
+                for x in b.reach_from(true_tgt, include_start=True):
+                    for st in b.blocks[x]["stmts"]:
+                        if st["k"] == "assign" and st["rv"]["k"] == "aggregate" and st["rv"].get("variant") == "IterationLimitReached":
+                            err = True
+                c2 = rep.check(leaves and err, R, "cutoff-returns-error", "the `iteration_count > iteration_max` edge no longer leaves the loop with Err(IterationLimitReached)",
+                               where="%s:%d" % (b.file, abs(s2.get("line", 0))))
+                ok_any = ok_any or (c1 and c2)
+    rep.check(ok_any, R, "cutoff-shape", "no `counter > iteration_max` comparison with the reviewed shape found in find_optimal_solution")
+    # format_line: Err -> None, and the driver skips None
+    fl = prog.body(OLF + "InternalOptimisingLineFormatter::format_line")
+    if rep.check(fl is not None, R, "anchor:format_line", "format_line not found"):
+        og = Origins(fl, identity=())
+        o = og.of_place({"l": 0, "p": []})
+        calls = {x[2] for x in o if x[0] == "call"}
+        rep.check("core::result::Result::ok" in calls and all(x[0] in ("call", "agg", "return-slot") for x in o), R, "format_line:err-to-none",
+                  "format_line no longer maps the search result through Result::ok (Err => None): origins %s" % sorted(map(str, o)),
+                  instance={"return_origins": sorted(calls)})
+    fm = [x for x in prog.find(r"OptimisingLineFormatter as pasfmt_core::traits::LogicalLineFileFormatter>::format$")]
+    if rep.check(len(fm) == 1, R, "anchor:OLF::format", "OptimisingLineFormatter::format not found"):
+        fm = fm[0]
+        from progress import dominating_variant_facts
+        sites = fm.calls_to(OLF + "InternalOptimisingLineFormatter::reconstruct_solution")
+        good = 0
+        for c in sites:
+            facts = dominating_variant_facts(prog, fm, c.bb)
+            if any(f[0].startswith("format_line(") and f[1] == "is" and f[2] == ("Some",) for f in facts):
+                good += 1
+            else:
+                rep.fail(R, "format:reconstruct-unguarded", "reconstruct_solution is called without a `Some` solution from format_line", where=c.where())
+        rep.floor(R, "reconstruct_solution call sites under Some(solution)", good, 2)
+
+
+RECURSION_ANCHORS = {
+    # anchor body -> (label, kind)
+    LLP + "::parse_structures": ("parser statement/structure recursion", "input-depth"),
+    P + "directive_tree::DirectiveTree::parse_next": ("directive tree construction", "input-depth"),
+    P + "directive_tree::DirectiveTree::explored": ("directive tree exploration flags", "input-depth"),
+    P + "directive_tree::DirectiveTree::pass": ("directive tree pass", "input-depth"),
+    "pasfmt_core::defaults::lexer::find_directive_expr_end": ("nested directives inside {$IF ...}", "input-depth"),
+    FOS: ("wrapping search over child lines", "input-depth"),
+    OLF + "InternalOptimisingLineFormatter::reconstruct_solution": ("applying child-line solutions", "input-depth"),
+    "<pasfmt_core::rules::optimising_line_formatter::debug::InternalDebugPrintableLine as core::fmt::Debug>::fmt": ("trace output of child lines", "trace-only"),
+    "<pasfmt_core::formatter::PostParseConsolidatorKind as pasfmt_core::traits::LogicalLinesConsolidator>::consolidate": ("dyn wrapper (class-hierarchy artefact: the boxed consolidator is never the wrapper itself)", "artefact"),
+    "<pasfmt_core::formatter_selector::FormatterSelector as pasfmt_core::traits::LogicalLineFormatter>::format": ("dyn wrapper (class-hierarchy artefact)", "artefact"),
+    "<pasfmt_core::lang::FormatterKind as pasfmt_core::traits::LogicalLineFileFormatter>::format": ("dyn wrapper (class-hierarchy artefact)", "artefact"),
+    "<pasfmt_core::rules::optimising_line_formatter::parent_pointer_tree::Node as core::clone::Clone>::clone": ("derive(Clone) on a generic node (unresolved T::clone, class-hierarchy artefact)", "artefact"),
+}
+
+
+def check_d(prog, rep):
+    """C04.d — recursion inventory: every cycle of the resolved call graph is a reviewed one."""
+    R = "C04.d"
+    scope = {k for k, b in prog.bodies.items() if b.crate in ("pasfmt_core.lib", "pasfmt_orchestrator.lib", "pasfmt.lib")}
+    sccs = prog.call_sccs(scope)
+    seen_anchors = set()
+    for comp in sccs:
+        anchors = [a for a in RECURSION_ANCHORS if a in comp]
+        if not anchors:
+            rep.fail(R, "scc:new:" + "+".join(sorted(short(x) for x in comp))[:300],
+                     "new recursive cycle in the call graph (not in the reviewed inventory): %s" % sorted(short(x) for x in comp)[:12],
+                     where="%s:%d" % (prog.bodies[sorted(comp)[0]].file, prog.bodies[sorted(comp)[0]].line))
+            continue
+        for a in anchors:
+            seen_anchors.add(a)
+            label, kind = RECURSION_ANCHORS[a]
+            if kind == "input-depth":
+                # recorded as known finding: unbounded recursion on nesting depth => stack exhaustion
+                rep.fail(R, "scc:" + short(a), "unbounded recursion on input nesting depth (%s, %d bodies in the cycle): stack exhaustion on deeply nested input" % (label, len(comp)),
+                         where="%s:%d" % (prog.bodies[a].file, prog.bodies[a].line), instance={"scc_anchor": short(a), "size": len(comp)})
+            else:
+                rep.ok(R, {"scc_anchor": short(a), "size": len(comp), "review": label})
+    rep.analysed["call_graph_sccs"] = len(sccs)
+    rep.floor(R, "recursive cycles found (call-graph SCC engine sees the reviewed recursion)", len(sccs), 7)
+
+
+def check_e(prog, rep):
+    """C04.e — lexer dispatch totality."""
+    R = "C04.e"
+    b = prog.body("pasfmt_core::defaults::lexer::lex_token_with_map")
+    if not rep.check(b is not None, R, "anchor:lex_token_with_map", "lex_token_with_map not found"):
+        return
+    ty = b.locals[1]["ty"]
+    rep.check(ty.startswith("[") and ty.endswith("; 256]") and "Option" not in ty and "fn(" in ty, R, "map-type-total",
+              "dispatch table parameter of lex_token_with_map is no longer a total [fn; 256] table (type: %s)" % ty,
+              instance={"table_type": ty})
+    og = Origins(b, identity=())
+    o = og.of_place({"l": 0, "p": []})
+    rep.check({x[2] for x in o if x[0] == "call"} == {"core::option::Option::map"} and len(o) == 1, R, "none-only-at-end",
+              "lex_token_with_map can now return None for reasons other than `no byte at offset`: %s" % sorted(map(str, o)))
+    gets = b.calls_to("core::slice::get")
+    rep.check(len(gets) == 1, R, "byte-read-by-get", "lex_token_with_map no longer reads the dispatch byte through slice::get")
+    for nm in ("lex_token", "lex_asm_token"):
+        lb = prog.body("pasfmt_core::defaults::lexer::" + nm)
+        ok = lb is not None and len(lb.calls_to("pasfmt_core::defaults::lexer::lex_token_with_map")) == 1
+        rep.check(ok, R, "dispatcher:" + nm, "%s no longer dispatches through lex_token_with_map" % nm)
+    # lex(): loop leaves only on None; eof() consumes the remainder (split at count_leading_whitespace)
+    eof = prog.body("pasfmt_core::defaults::lexer::eof")
+    if rep.check(eof is not None, R, "anchor:eof", "lexer::eof not found"):
+        sp = eof.calls_to("core::str::split_at")
+        cw = eof.calls_to("pasfmt_core::defaults::lexer::count_leading_whitespace")
+        ok = len(sp) == 1 and len(cw) == 1
+        if ok:
+            o2 = Origins(eof, identity=()).of_operand(sp[0].args[1])
+            ok = {x[2] for x in o2 if x[0] == "call"} == {"pasfmt_core::defaults::lexer::count_leading_whitespace"}
+        rep.check(ok, R, "eof-splits-at-blank-count", "eof() no longer splits the remainder at count_leading_whitespace of the same input")
+
+
 def check(prog, rep, tier, cfg):
     import panic
     check_a(prog, rep)
     panic.check_b(prog, rep, cfg)
+    check_c(prog, rep)
+    check_d(prog, rep)
+    check_e(prog, rep)
